@@ -29,7 +29,8 @@ Definition pin_or (l : list (option nat)) (k d : nat) : nat := match pin l k wit
 Definition node_ops (c : netlist) (snodes : list nat) (strip : bool) (zero tmp ppi : nat) (n : nat) : list sop :=
   let nd := get_node c n in
   let mk l o a b cc d := {| s_lut := l; s_out := o; s_i0 := a; s_i1 := b; s_i2 := cc; s_i3 := d |} in
-  match last_pos n snodes 0 None with
+  let port_wire := String.eqb (n_kind nd) "__fork__" && is_some (pin (n_ins nd) 0) in
+  match (if port_wire then None else last_pos n snodes 0 None) with
   | Some pos =>
       let inp := ppi + pos in
       (match pin (n_outs nd) 0 with Some o => [mk (lutv "BUF1") o inp zero zero zero] | None => [] end) ++
@@ -60,7 +61,7 @@ Fixpoint stem_walk (fuel : nat) (c : netlist) (l : nat) : option nat :=
   | O => None
   | S f => let d := get_node c (l_drv (get_line c l)) in
            if String.eqb (n_kind d) "__fork__" then
-             match pin (n_ins d) 0 with Some l' => stem_walk f c l' | None => None end
+             match pin (n_ins d) 0 with Some l' => stem_walk f c l' | None => Some l end
            else Some l
   end.
 
@@ -76,7 +77,7 @@ Definition build_stems (c : netlist) (strip : bool) (len : nat) : option (list Z
       match acc with None => None | Some st =>
         if String.eqb (n_kind f) "__fork__" then
           match pin (n_ins f) 0 with
-          | None => None
+          | None => Some st                (* input port modelled as fork: nothing to strip *)
           | Some l0 => match stem_walk (S (List.length (c_nodes c))) c l0 with
                        | None => None
                        | Some stem => Some (fold_left (fun s ol => setZ s ol (Z.of_nat stem)) (somes (n_outs f)) st)
